@@ -38,6 +38,7 @@ def job_main(scen_name, job, rec_path, deadline):
         E = core.Engine(rec_path, deadline, opts)
         E.cfg = job['cfg']
         proxies.install(E)
+        E.arm_watchdog()
         funcs = set()
         mon = _start_monitor(funcs)
         outcome, exc = 'ok', None
